@@ -1,16 +1,30 @@
 #!/bin/sh
 # Builds the Coq development (full .vo build), extracts the model and compiles the OCaml driver. Offline.
+# Safe to run concurrently: a lock serialises builds, the binary is replaced atomically and only when stale.
 set -e
 cd "$(dirname "$0")"
 V=$(pwd)
+mkdir -p "$V/.work"
+exec 9> "$V/.work/build.lock"
+flock 9
 cd "$V/coq"
-coq_makefile -f _CoqProject -o Makefile > /dev/null
+if [ ! -f Makefile ] || [ _CoqProject -nt Makefile ]; then
+  coq_makefile -f _CoqProject -o Makefile > /dev/null
+fi
 timeout 3000 make -j16 > "$V/coq/build.log" 2>&1 || { tail -40 "$V/coq/build.log"; echo "coq build failed"; exit 1; }
-mkdir -p "$V/ocaml/gen" "$V/bin"
+mkdir -p "$V/ocaml/gen" "$V/ocaml/_b" "$V/bin"
 # extraction writes model.ml / model.mli into the directory coqc ran in
-mv -f "$V/coq/model.ml" "$V/coq/model.mli" "$V/ocaml/gen/" 2>/dev/null || true
-cd "$V/ocaml"
-cp gen/model.ml gen/model.mli driver.ml "$V/ocaml/_b/" 2>/dev/null || { mkdir -p "$V/ocaml/_b"; cp gen/model.ml gen/model.mli driver.ml "$V/ocaml/_b/"; }
-cd "$V/ocaml/_b"
-ocamlfind ocamlopt -O2 -w -a model.mli model.ml driver.ml -o "$V/bin/dynmodel" 2>/dev/null || ocamlfind ocamlopt -w -a model.mli model.ml driver.ml -o "$V/bin/dynmodel"
+if [ -f "$V/coq/model.ml" ]; then mv -f "$V/coq/model.ml" "$V/coq/model.mli" "$V/ocaml/gen/"; fi
+if [ ! -f "$V/ocaml/gen/model.ml" ]; then
+  # extraction products missing although Extract.vo is up to date: force re-extraction
+  rm -f "$V/coq/theories/Extract.vo"
+  timeout 3000 make -j16 >> "$V/coq/build.log" 2>&1 || { tail -40 "$V/coq/build.log"; echo "coq build failed"; exit 1; }
+  mv -f "$V/coq/model.ml" "$V/coq/model.mli" "$V/ocaml/gen/"
+fi
+if [ ! -x "$V/bin/dynmodel" ] || [ "$V/ocaml/gen/model.ml" -nt "$V/bin/dynmodel" ] || [ "$V/ocaml/driver.ml" -nt "$V/bin/dynmodel" ]; then
+  cp "$V/ocaml/gen/model.ml" "$V/ocaml/gen/model.mli" "$V/ocaml/driver.ml" "$V/ocaml/_b/"
+  cd "$V/ocaml/_b"
+  ocamlfind ocamlopt -O2 -w -a model.mli model.ml driver.ml -o "$V/bin/dynmodel.new" 2>/dev/null || ocamlfind ocamlopt -w -a model.mli model.ml driver.ml -o "$V/bin/dynmodel.new"
+  mv -f "$V/bin/dynmodel.new" "$V/bin/dynmodel"
+fi
 echo "setup ok"
